@@ -5,6 +5,11 @@ HERE = os.path.dirname(os.path.dirname(os.path.abspath(__file__)))
 ALL = ["C%02d" % i for i in range(1, 21)]
 
 CLAIMED = {
+    "C11": dict(
+        text="Theorems: the overlap-aware scanning loop returns exactly the matching positions in order (for every fixed-size pattern, every sequence); strand +1 gives exactly the forward occurrences inside the location, strand -1 exactly the reverse-complement occurrences with mirrored coordinates, strand 0 both; for palindromic IUPAC words and for direct repeats reverse occurrences coincide with forward ones, so reporting once loses nothing; regex classes restricted to ACGT equal the IUPAC sets (regenerated csv tables). Model tied to SequencePattern.from_string(...).find_matches by vm_compute correspondence, with an independent double-loop oracle.",
+        note="Trusted: the `re` engine is modelled as 'leftmost position where the fixed-size pattern matches' (first_match); enzyme site strings are Biopython data; general regexes / PSSM patterns are outside the model.",
+        technique="Coq proof (induction on the scan, window lemmas, finite table checks) + regenerated tables + vm_compute correspondence",
+        design="6/C11"),
     "C19": dict(
         text="Theorems: complement is base-wise on the generated IUPAC table on both sides of the 30-base switch and reverse_complement is an involution (U excluded); translate(reverse_translate(p)) = p for every generated genetic table without dual-use stop codons, every protein and every random stream (dual tables refuted by witness); the cumulative-sum windowed GC equals the counted fraction per window; difference array/count/segments = mismatches and their maximal runs; subdivide_window is a consecutive partition with pieces 1..m; index/segment grouping partitions the sorted input within the gap/spread limits and breaks only when a limit fails. Tables regenerated from the csv files and Biopython on every run; model tied to the code by vm_compute correspondence.",
         note="Trusted: Coq kernel, gen_tables.py, harness; numpy cumsum/diff/nonzero semantics are modelled (lists), float division count/w checked exactly in the harness; Biopython Seq.complement/translate are data/oracles.",
